@@ -53,6 +53,7 @@ type aState struct {
 	Nonce  map[string]int `json:"nonce"`
 	Coins  []aCoin        `json:"coins"`
 	Held   int            `json:"held"`
+	Pay    int            `json:"pay"`
 	Spends []int          `json:"spends"`
 }
 
@@ -69,6 +70,7 @@ var (
 	addrP1     = common.HexToAddress("0x00000000000000000000000000000000000a55e1") // passive, token-only at genesis
 	addrFwd    = common.HexToAddress("0x00000000000000000000000000000000000c5703")
 	addrSlots  = common.HexToAddress("0x00000000000000000000000000000000000c5704")
+	addrPay    = common.HexToAddress("0x00000000000000000000000000000000000c5705")
 	addrStore  = common.HexToAddress("0x00000000000000000000000000000000000c5701")
 	addrRevert = common.HexToAddress("0x00000000000000000000000000000000000c5702")
 	codeStore  = []byte{0x00}                         // STOP: keeps what it receives
@@ -91,11 +93,25 @@ func slotsData(pattern int, salt byte) []byte {
 	return d
 }
 
+// codePay: CALL(gas, p1, one unit, 0,0,0,0) out of the contract's own balance; revert if the call failed.
+func codePay() []byte {
+	c := []byte{0x60, 0x00, 0x60, 0x00, 0x60, 0x00, 0x60, 0x00}
+	u := Unit.Bytes()
+	c = append(c, byte(0x60+len(u)-1)) // PUSHn
+	c = append(c, u...)
+	c = append(c, 0x73)
+	c = append(c, addrP1.Bytes()...)
+	c = append(c, 0x60, 0x00, 0xf1) // PUSH1 0 (call gas: the recipient has no code; the stipend is enough) CALL
+	dest := byte(len(c) + 5)
+	c = append(c, 0x15, 0x60, dest, 0x57, 0x00, 0x5b, 0x60, 0x00, 0x60, 0x00, 0xfd)
+	return c
+}
+
 // codeFwd: CALL(gas, p1, callvalue, 0,0,0,0); revert if the call failed.
 func codeFwd() []byte {
 	c := []byte{0x60, 0x00, 0x60, 0x00, 0x60, 0x00, 0x60, 0x00, 0x34, 0x73}
 	c = append(c, addrP1.Bytes()...)
-	c = append(c, 0x5a, 0xf1) // GAS CALL
+	c = append(c, 0x60, 0x00, 0xf1) // PUSH1 0 (call gas) CALL
 	// ISZERO PUSH1 <dest> JUMPI STOP JUMPDEST PUSH1 0 PUSH1 0 REVERT
 	dest := byte(len(c) + 5)
 	c = append(c, 0x15, 0x60, dest, 0x57, 0x00, 0x5b, 0x60, 0x00, 0x60, 0x00, 0xfd)
@@ -147,7 +163,8 @@ func (w *world) genesis() []appx.Alloc {
 	}
 	al = append(al, appx.Alloc{Addr: addrP1, Tokens: map[common.Address]*big.Int{addrToken: units(1)}}) // tokens only: no native coin, nonce 0
 	al = append(al, appx.Alloc{Addr: addrStore, Code: codeStore, Nonce: 1}, appx.Alloc{Addr: addrRevert, Code: codeRevert, Nonce: 1},
-		appx.Alloc{Addr: addrFwd, Code: codeFwd(), Nonce: 1}, appx.Alloc{Addr: addrSlots, Code: codeSlots, Nonce: 1})
+		appx.Alloc{Addr: addrFwd, Code: codeFwd(), Nonce: 1}, appx.Alloc{Addr: addrSlots, Code: codeSlots, Nonce: 1},
+		appx.Alloc{Addr: addrPay, Code: codePay(), Nonce: 1, Balance: units(2)})
 	return al
 }
 
@@ -185,9 +202,19 @@ func (w *world) build(t aTx, ref *appx.Env, newCoins *[]*appx.Coin) (types.Tx, e
 			gas += 2*fee + 2000000
 		} else {
 			w.fwdCount++
-			gas += []uint64{100000, 250000, fee / 2, fee - 1000, fee + 5000}[w.fwdCount%5]
+			gas += []uint64{100000, 600000, 2000000, fee / 2, fee - 1000, fee + 5000}[w.fwdCount%6]
 		}
 		return w.accts[t.fromAcct()].TransferGasLimit(uint64(t.nonce()), addrFwd, units(t.A), gas, nil), nil
+	case "pay":
+		// zero-value call; "tight": a legal gas limit far below the inner transfer fee
+		gas := uint64(3000000) + types.CalNewAmountGas(Unit, types.EverContractLiankeFee)
+		if t.T != "ample" {
+			w.fwdCount++
+			// below, inside and well inside the window between the inner call's plain cost (about
+			// 0.5 M gas at this tree's EVM gas rate) and plain cost + transfer fee (25 M for one unit)
+			gas = []uint64{100000, 600000, 2000000, 10000000}[w.fwdCount%4]
+		}
+		return w.accts[t.fromAcct()].TransferGasLimit(uint64(t.nonce()), addrPay, big.NewInt(0), gas, nil), nil
 	case "sst":
 		w.sstCount++
 		return w.accts[t.fromAcct()].TransferGasLimit(uint64(t.nonce()), addrSlots, big.NewInt(0), 2000000, slotsData(t.A, byte(w.sstCount))), nil
@@ -519,7 +546,7 @@ func descBlock(a aAct) string {
 
 // compare checks balances, nonces, pool and conservation on every replica.
 func (w *world) compare(reps []*replica, to aState) string {
-	supply := units(w.initBal * len(w.accts))
+	supply := units(w.initBal*len(w.accts) + 2)
 	for _, r := range reps {
 		st := r.env.App.GetLatestStateDB()
 		total := new(big.Int)
@@ -555,7 +582,7 @@ func (w *world) compare(reps []*replica, to aState) string {
 				return fmt.Sprintf("token: %s: token balance of %s is %v, the specification says %d units", r.name, n, got, want)
 			}
 		}
-		for _, a := range []common.Address{addrStore, addrRevert, addrFwd, cfg.ContractFoundationAddr, common.EmptyAddress} {
+		for _, a := range []common.Address{addrStore, addrRevert, addrFwd, addrPay, addrSlots, cfg.ContractFoundationAddr, common.EmptyAddress} {
 			tokTotal.Add(tokTotal, st.GetTokenBalance(a, addrToken))
 		}
 		if tokTotal.Cmp(units(len(to.Tok))) != 0 {
@@ -564,6 +591,11 @@ func (w *world) compare(reps []*replica, to aState) string {
 		if b := st.GetBalance(addrFwd); b.Sign() != 0 {
 			return fmt.Sprintf("%s: the forwarding contract holds %v (it forwards or reverts)", r.name, b)
 		}
+		payHeld := st.GetBalance(addrPay)
+		if payHeld.Cmp(units(to.Pay)) != 0 {
+			return fmt.Sprintf("%s: the paying contract holds %v, the specification says %d units", r.name, payHeld, to.Pay)
+		}
+		total.Add(total, payHeld)
 		held := st.GetBalance(addrStore)
 		if held.Cmp(units(to.Held)) != 0 {
 			return fmt.Sprintf("%s: the keeping contract holds %v, the specification says %d units", r.name, held, to.Held)
